@@ -740,6 +740,8 @@ func replay(path string) {
 		}
 	case "geometry":
 		checkGeometry("replay", geometryFromJSON(m))
+	case "chunkread":
+		checkChunkRead("replay", chunkFromJSON(m))
 	case "snap":
 		sc := &snapCase{Compressed: bl("compressed"), ViaCommit: bl("via_commit")}
 		h, _ := m["height"].(float64)
